@@ -21,23 +21,18 @@ structure WF (s : ChandelierExit F) : Prop where
   pmax : s.max.period = s.atr.period_fn
 
 /-- `new` exactly as generated: `AverageTrueRange::new(period)?`, then `Minimum::new(period)?`, then
-    `Maximum::new(period)?`.  All three return `Err` on 0.  For `period ≠ 0` the ATR constructor
-    panics only when `period + 1` overflows `usize`, which implies `period * 8 > isize::MAX`, the
-    (weaker) condition under which `Minimum::new` panics anyway: the observable result is the
-    three-way split below (which call panics is not observable). -/
+    `Maximum::new(period)?`.  All three return `Err` on 0; the ATR constructor never panics, and
+    for `period ≠ 0` the two windows panic on the same condition (`period * 8 > isize::MAX`,
+    `vec!` capacity overflow), so the order of the calls is not observable. -/
 theorem new_eq (p : Nat) (m : F) :
     (new p m : Res (ChandelierExit F)) =
       if p = 0 then .err .InvalidParameter
       else if p * 8 ≤ isizeMax then .ok (fresh p m) else .panic := by
   unfold new
   rw [AverageTrueRange.new_eq, Minimum.new_eq, Maximum.new_eq]
-  have hm : isizeMax < usizeMax := by decide
   by_cases h0 : p = 0
   · simp [h0, bind, Res.bind]
-  · by_cases h1 : p * 8 ≤ isizeMax
-    · have h2 : p + 1 ≤ usizeMax := by omega
-      simp [h0, h1, h2, bind, Res.bind, fresh]
-    · by_cases h2 : p + 1 ≤ usizeMax <;> simp [h0, h1, h2, bind, Res.bind]
+  · by_cases h1 : p * 8 ≤ isizeMax <;> simp [h0, h1, bind, Res.bind, fresh]
 
 theorem fresh_wf (p : Nat) (m : F) (hp : 0 < p) (h8 : p * 8 ≤ isizeMax) :
     WF (fresh p m : ChandelierExit F) :=
